@@ -220,15 +220,22 @@ def run_case(c):
     out["all"] = [f.id for f, _ in loaded]
     top_only = c.get("top_only", False)
     agg = Aggregator(session, top_level_only=top_only)
+    chain = bool(c.get("chain")) and c["pred"][0] == "and"
     try:
-        q = build_query(agg, c["pred"])
+        if chain:
+            # agg.query(left).query(right): Aggregator.query and-s the predicates itself
+            left = build_query(agg, c["pred"][1])
+            right = build_query(agg, c["pred"][2])
+            q = None
+        else:
+            q = build_query(agg, c["pred"])
     except BaseException as e:  # noqa
         out["exc"] = exc_name(e)
         out["msg"] = str(e)[:200]
         out["stage"] = "construct"
         return out
     try:
-        res = agg.query(q)
+        res = agg.query(left).query(right) if chain else agg.query(q)
         if c["kind"] == "order":
             for attr, rev in c["keys"]:
                 res = res.order_by(getattr(agg.search, attr), reverse=rev)
@@ -245,7 +252,7 @@ def run_case(c):
             fits = res.fits
             out["ids"] = [f.id for f in fits]
             # __call__ is the concise syntax for query
-            out["ids_call"] = [f.id for f in agg(q).fits]
+            out["ids_call"] = [f.id for f in (agg(left)(right) if chain else agg(q)).fits]
     except BaseException as e:  # noqa
         out["exc"] = exc_name(e)
         out["msg"] = str(e)[:200]
